@@ -23,11 +23,51 @@ def check_spec(spec):
     d = common.cmp_impl(before, ic[1], exact=True)
     if d:
         return "%s; text: %r" % ("; ".join(d[:3]), text[:500]), text
-    # array declarations reproduce shape and every element exactly (bit patterns)
+    # a program modified after it was serialised once is serialised as it is NOW
+    import copy
+    for o in p._operations:
+        for a in list(o.get("args", [])) + list(o.get("kwargs", {}).values()):
+            if isinstance(a, np.ndarray) and a.size and a.dtype.kind in "if":
+                a.flat[0] = a.flat[0] + 1 if abs(a.flat[0]) < 1e15 else 0
+                with core.quiet():
+                    try:
+                        t_now = blackbird.dumps(p)
+                        t_copy = blackbird.dumps(copy.deepcopy(p))
+                    except Exception as e:  # noqa: BLE001
+                        return "dumps of the modified program raises %r" % (e,), text
+                ic2, _ = core.impl_canon_loads(t_now)
+                d2 = common.cmp_impl(canon.canon_program(p)[1], ic2[1], exact=True) if ic2[0] == "prog" else ["refused"]
+                if d2 or t_now != t_copy:
+                    return ("after an array argument was changed in place, dumps writes the old elements: %s" %
+                            "; ".join(d2[:2]) or "text differs from that of a deep copy"), text
+                return None, text
     return None, text
 
 
+def check_tdm_api(strs):
+    import blackbird
+    from blackbird.program import BlackbirdProgram
+    p = BlackbirdProgram(name="t", version="1.0")
+    p._type = {"name": "tdm", "options": {"temporal_modes": 2}}
+    p._var = {"p0": np.array([[0.5, 1.5]])}
+    p._operations = [{"op": "G", "args": [strs[0], "p0"], "kwargs": {"label": strs[1]}, "modes": [0]}]
+    with core.quiet():
+        try:
+            text = blackbird.dumps(p)
+        except Exception as e:  # noqa: BLE001
+            return "dumps raises %r" % (e,)
+    ic, obj = core.impl_canon_loads(text)
+    if ic[0] != "prog":
+        return "serialised script is refused: %r; text %r" % (obj, text[:300])
+    o = obj.operations[0]
+    if o["args"][0] != strs[0] or o["args"][1] != "p0" or o["kwargs"].get("label") != strs[1]:
+        return "string arguments %r come back as %r / %r; text %r" % (strs, o["args"], o["kwargs"], text[:300])
+    return None
+
+
 def replay(ctx, data):
+    if data.get("kind") == "tdm_api":
+        return check_tdm_api(data["strs"])
     if data.get("kind") == "api":
         return check_spec(data["spec"])[0]
     return oracles.generic_replay(data)
@@ -59,5 +99,13 @@ def run(ctx):
             ctx.violation("API round trip: " + msg, {"kind": "api", "spec": spec})
         else:
             progs.append(apigen.build(spec))
+    # programs of type tdm built through the API: string arguments that only begin like a p-array name stay strings
+    for _ in range(ctx.n(40, 400)):
+        strs = [ctx.rng.choice(["p0x", "p12 ab", "p1_", "p", "px1", "hello", "q0", "P0", "p0.5"]) for _ in range(2)]
+        ctx.count("tdm-api-string-arguments")
+        ctx.case(("tdm-api", tuple(strs)), nontrivial=True)
+        msg = check_tdm_api(strs)
+        if msg:
+            ctx.violation("API round trip (tdm): " + msg, {"kind": "tdm_api", "strs": strs})
     c01.dumps_corr(ctx, progs)
     c01.unparse_corr(ctx, progs)
